@@ -97,4 +97,7 @@ def obligations(tier, rng):
         if o['oid'] not in seen:
             seen.add(o['oid'])
             res.append(o)
-    return res
+    res_ = res
+    from .. import core as _core
+    res_ = res_ + _core.make_twins(res_, [('F1/offline/once[0,1](x)/N=3', 'window'), ('F1/offline/(x) and (y)/N=3', 'minmax'), ('F1/offline/prev(x)/N=3', 'pad'), ('F1/combined/(x) since (y)/N=4', 'since'), ('F1/combined/eventually[1,2](x)/N=4', 'window')]) + _core.make_forkmode(res_, ['F1/offline/historically[0,2](x)/N=3', 'F1/combined/(x) until[1,2] (y)/N=4', 'F1/offline/(x) or (y)/N=3', 'F1/combined/(x) since (y)/N=4'])
+    return res_
